@@ -190,6 +190,8 @@ impl QueryEngine {
         let table = ListingTable::try_new(config)?;
 
         let _ = self.ctx.deregister_table("metrics");
+        #[cfg(feature = "verif-hooks")]
+        crate::verif_hooks::pause("engine:rebind_gap").await;
         self.ctx.register_table("metrics", Arc::new(table))?;
 
         *self.registered_metrics_paths.write() = normalized_paths;
@@ -202,6 +204,8 @@ impl QueryEngine {
         let empty_table = EmptyTable::new(schema);
 
         let _ = self.ctx.deregister_table("metrics");
+        #[cfg(feature = "verif-hooks")]
+        crate::verif_hooks::pause("engine:rebind_gap").await;
         self.ctx
             .register_table("metrics", Arc::new(empty_table))
             .map(|_| ())
